@@ -52,6 +52,10 @@ class Fs(RealPathFs, Protocol):
     def islink(self, path):
         raise NotImplementedError
 
+    def islink_or_raise(self, path):
+        # like islink(), but "could not find out" is an error, not a "no"
+        return self.islink(path)
+
     @abstractmethod
     def has_sticky_bit(self, path):
         raise NotImplementedError
